@@ -44,10 +44,13 @@ type TraceEvent struct {
 // recDriver records everything the executor does to the driver.
 type recDriver struct {
 	Driver
-	ev   []TraceEvent
-	gen  map[int]int
-	step *int
+	ev     []TraceEvent
+	gen    map[int]int
+	step   *int
+	onSend func(slot int)
 }
+
+func (r *recDriver) Inner() Driver { return r.Driver }
 
 func newRecDriver(d Driver, step *int) *recDriver {
 	return &recDriver{Driver: d, gen: map[int]int{}, step: step}
@@ -69,6 +72,9 @@ func (r *recDriver) Send(slot int, p proto.Message) {
 
 func (r *recDriver) SendBytes(slot int, b []byte) {
 	r.ev = append(r.ev, TraceEvent{Step: *r.step, Kind: EvSend, Slot: slot, Gen: r.gen[slot], Bytes: b, JoinInst: -2})
+	if r.onSend != nil {
+		r.onSend(slot)
+	}
 	r.Driver.SendBytes(slot, b)
 }
 
